@@ -433,20 +433,24 @@ Section Step.
           eapply law_silent. cbn [builtin]. rewrite V, app_nil_r. reflexivity.
       + eapply law_raise; [cbn [builtin]; rewrite V; reflexivity|left; reflexivity].
     - (* Imul *)
+      destruct (fits n) eqn:FT; cbn [negb];
+        [|eapply law_raise; [cbn [builtin]; rewrite FT; reflexivity|left; reflexivity]].
       unfold imul. destruct (n <? 1) eqn:N.
       + destruct (nonempty l) eqn:NE.
-        * eapply law_event; [cbn [builtin]; unfold imul; rewrite N; reflexivity|apply whole_event].
-        * apply nonempty_length in NE. subst l. eapply law_silent. cbn [builtin]. unfold imul. rewrite N. reflexivity.
+        * eapply law_event; [cbn [builtin]; rewrite FT; unfold imul; rewrite N; reflexivity|apply whole_event].
+        * apply nonempty_length in NE. subst l. eapply law_silent. cbn [builtin]. rewrite FT. unfold imul. rewrite N. reflexivity.
       + destruct (Z.to_nat n) as [|m] eqn:M; [lia|]. rewrite rep_skip. cbn [rep].
         destruct (nonempty (rep l m)) eqn:NE.
-        * eapply law_event; [cbn [builtin]; unfold imul; rewrite N, M; reflexivity|apply tail_event].
+        * eapply law_event; [cbn [builtin]; rewrite FT; unfold imul; rewrite N, M; reflexivity|apply tail_event].
         * apply nonempty_length in NE. rewrite NE, app_nil_r.
-          eapply law_silent. cbn [builtin]. unfold imul. rewrite N, M. cbn [rep]. rewrite NE, app_nil_r. reflexivity.
+          eapply law_silent. cbn [builtin]. rewrite FT. unfold imul. rewrite N, M. cbn [rep]. rewrite NE, app_nil_r. reflexivity.
     - (* ImulQ *)
       eapply law_raise; [reflexivity|left; reflexivity].
     - (* Insert *)
       destruct (vld v) as [y|] eqn:V.
-      + eapply law_event; [cbn [builtin]; rewrite V; reflexivity|].
+      + destruct (fits i) eqn:FT;
+          [|eapply law_raise; [cbn [builtin]; rewrite V, FT; reflexivity|left; reflexivity]].
+        eapply law_event; [cbn [builtin]; rewrite V, FT; reflexivity|].
         unfold insert, insert_index, ins_nth.
         set (k := if i <? 0 then Z.max (i + zlen l) 0 else Z.min i (zlen l)).
         assert (0 <= k) as Hk by (subst k; pose proof (zlen_nonneg l); destruct (i <? 0) eqn:E; lia).
@@ -454,14 +458,16 @@ Section Step.
       + eapply law_raise; [cbn [builtin]; rewrite V; reflexivity|left; reflexivity].
     - (* Pop *)
       set (i := match oi with Some i => i | None => -1 end).
+      destruct (fits i) eqn:FT; cbn [negb];
+        [|eapply law_raise; [cbn [builtin]; fold i; rewrite FT; reflexivity|left; reflexivity]].
       unfold pop, getitem_int. destruct (in_range (zlen l) i) eqn:R.
       + destruct (in_range_nth l i R) as [Hn [x Hx]]. rewrite Hx. cbn [bind].
         fold (norm_index (zlen l) i).
         eapply law_event.
-        * cbn [builtin]. fold i. unfold pop, getitem_int. rewrite R, Hx. cbn [bind fst snd]. reflexivity.
+        * cbn [builtin]. fold i. rewrite FT. unfold pop, getitem_int. rewrite R, Hx. cbn [bind fst snd]. reflexivity.
         * unfold nat_index in *. rewrite <- (Z2Nat.id (norm_index (zlen l) i)) at 2 by exact Hn.
           apply del_event. exact Hx.
-      + cbn [bind]. eapply law_raise; [cbn [builtin]; fold i; unfold pop, getitem_int; rewrite R; reflexivity|left; reflexivity].
+      + cbn [bind]. eapply law_raise; [cbn [builtin]; fold i; rewrite FT; unfold pop, getitem_int; rewrite R; reflexivity|left; reflexivity].
     - (* Remove *)
       unfold remove. destruct (index_of py_eq v l) as [n|] eqn:IX.
       + destruct (index_of_nth py_eq v l n IX) as [x Hx]. rewrite Hx.
@@ -589,20 +595,8 @@ Section Hist.
     rewrite tl_step_law, IH. reflexivity.
   Qed.
 
-  (* histories on a TraitListObject: the steps refused for length reasons are
-     TraitError steps that leave the list alone (see C04); all others obey the law *)
-  Definition refused (l : list Z) (ob : obs) : bool :=
-    match o_out ob with Raise TraitError => zlist_eqb (o_after ob) l && is_nil (o_events ob) | _ => false end.
 
-  Fixpoint law_hist_tlo (i : Z) (before : list Z) (h : list (op * obs)) : list Z :=
-    match h with
-    | [] => []
-    | (o, ob) :: r =>
-        (if refused before ob then [] else map (fun c => 100 * i + c) (law_step vld before o ob))
-        ++ law_hist_tlo (i + 1) (o_after ob) r
-    end.
-
-  Theorem run_law_tlo mn mx : forall ops l i, law_hist_tlo i l (run (tlo_step vld mn mx) l ops) = [].
+  Theorem run_law_tlo mn mx : forall ops l i, law_hist_tlo vld i l (run (tlo_step vld mn mx) l ops) = [].
   Proof.
     induction ops as [|o ops IH]; intros l i; cbn [run law_hist_tlo]; [reflexivity|].
     rewrite IH, app_nil_r. destruct (tlo_step_law vld mn mx l o) as [H|H].
